@@ -111,8 +111,8 @@ PROPS = {
         'assumptions': COMMON_ASSUME + ['regexp matches invalid UTF-8 bytes as U+FFFD (outside every ASCII class); exercised by the stream on all 256 bytes and all code points'],
     },
     'C12': {
-        'props': ['theories/Props/C12.v'], 'deps': VERIFY_DEPS + ['theories/Theory/WriterFacts.v'],
-        'streams': ['l3-validate', 'l3-write'],
+        'props': ['theories/Props/C12.v'], 'deps': VERIFY_DEPS + ['theories/Theory/WriterFacts.v'] + ['theories/Model/Server.v', 'gen/Handlers.v'],
+        'streams': ['l3-validate', 'l3-write', 'l6-http'],
         'trusted_base': GOV_TB + ['Spec/Rules.v option_rules'],
         'assumptions': COMMON_ASSUME + ['route agreement (reader presets, JSON, HTTP query) is covered by the streams of C04/C14/C17, not by these theorems'],
     },
